@@ -71,6 +71,8 @@ FAMILIES = {
          'thorough': 4000, 'first': 200000},
         # ... and with the interactions driven through the Rx / ReactiveX front ends
         {'family': 'adapters_cut', 'knobs': {}, 'quick': 250, 'thorough': 4000, 'first': 400000},
+        # the connection ends while requests are waiting for a lease
+        {'family': 'lease', 'knobs': {'end_with_loss': True}, 'quick': 150, 'thorough': 2500, 'first': 800000},
         # close() called from inside on_keepalive_timeout / on_close
         {'family': 'close_cb', 'knobs': {}, 'quick': 200, 'thorough': 3000, 'first': 700000},
         # explicit close() while a reconnect the application asked for is under way
